@@ -12,6 +12,8 @@ the Context state after render (len(dicts), flatten(), render_context depth).
 Excluded (documented lexer differences): `%}` inside quotes, newlines inside a tag.
 
 Part (b) composition by inlining - see checks/c10b.py (run from here).
+Part (c) histories over shared Template objects (cached loader): stock pages render the same before and after
+component renders that use the same template files - see checks/c10c.py (run from here).
 """
 from __future__ import annotations
 
@@ -104,11 +106,15 @@ def run_stock_part(ctx):
 def run(ctx):
     ev = ctx.ev
     ev.rule = ("(a) every stock template family with <= N nodes run in an unpatched twin process and in the patched process; non-trivial = families using extends/include. "
-               "(b) every C01 program x every split of one template into base/child/include, compared with the unsplit program")
+               "(b) every C01 program x every split of one template into base/child/include, compared with the unsplit program. "
+               "(c) every history of <= 3/4 stock-page and component renders over shared (cached-loader) Template objects; each op equals its solo result")
     run_stock_part(ctx)
     from checks import c10b
 
     c10b.run_part(ctx)
+    from checks import c10c
+
+    c10c.run_part(ctx)
     ev.assumptions = ["(a) no `%}` inside quotes and no newline inside a tag (the two documented lexer differences)",
                       "(b) the unsplit program's own correctness is C01's business (differential oracle)"]
 
@@ -132,6 +138,10 @@ def replay(ctx, case):
                 print("RUN patched:", a)
                 print("RUN stock:  ", b)
         return same
+    if case.get("part") == "shared":
+        from checks import c10c
+
+        return c10c.replay(ctx, case)
     from checks import c10b
 
     return c10b.replay(ctx, case)
